@@ -263,6 +263,8 @@ type recording struct {
 	need []int
 	// completionEnd[tag] = offset just past the tagged completion line of tag
 	completionEnd map[string]int
+	// boundary[off]: off lies between two complete responses (or before the first)
+	boundary map[int]bool
 }
 
 func newStub() *stub.Core {
@@ -403,6 +405,7 @@ func record(t *testing.T, p program) *recording {
 	// completion offsets from the recorded server stream
 	off := 0
 	rest := rec.server
+	rec.boundary = map[int]bool{0: true}
 	for len(rest) > 0 {
 		l, n, err := tok.Next(rest, true)
 		if err != nil {
@@ -410,6 +413,7 @@ func record(t *testing.T, p program) *recording {
 		}
 		off += n
 		rest = rest[n:]
+		rec.boundary[off] = true
 		if l.Status != "" && l.Tag != "*" {
 			rec.completionEnd[l.Tag] = off
 		}
@@ -598,7 +602,13 @@ func replay(t *testing.T, p program, rec *recording, cut int, kind faultKind) {
 	select {
 	case <-done:
 	case <-fc.stalled:
-		// nothing is armed to time out: the caller closes the client
+		// nothing is armed to time out: the caller closes the client. Between
+		// two responses the client waits without a deadline by design; in the
+		// middle of a response (a line, a literal) its own read timeout must be
+		// running, otherwise a server that stalls there blocks the caller for ever
+		if !rec.boundary[cut] {
+			fail("the server stalled in the middle of a response and the client has no read deadline armed: the stall is never resolved by the client's own timeout")
+		}
 		closedByCaller = true
 		cd := make(chan struct{})
 		go func() { c.Close(); close(cd) }()
